@@ -20,6 +20,8 @@
 (***************************************************************************)
 EXTENDS Idx, Op, TLC
 
+CONSTANT PerFix   \* TRUE: the tree after "fix: periodization DWT/IDWT wrap around fully ..." (finding F1)
+
 (* ========================= Ref: PyWavelets ============================== *)
 RefALen(mode, N, L) == DwtCoeffLen(N, L, mode)
 
@@ -72,8 +74,9 @@ ImplARaises(mode, N, L) ==
 
 \* Stored(u) = which user tap sits at position u of the tensor handed to conv2d
 \* (prep_filt_afb1d stores the analysis filters flipped: Stored(u) = L-1-u)
-ImplAGeneric(mode, N, L, Stored(_)) ==
-    IF mode = "periodization" THEN
+\* periodization branch of afb1d BEFORE the repair of finding F1 (kept as a negative model):
+\* roll by -L/2, zero padding L-1 inside conv2d, ONE wrap-around fold of the tail
+ImplAPerOld(N, L, Stored(_)) ==
         LET L2   == L \div 2
             odd  == N % 2 = 1
             Ne   == IF odd THEN N + 1 ELSE N
@@ -97,6 +100,21 @@ ImplAGeneric(mode, N, L, Stored(_)) ==
                                    full.c[m][t][i] + full.c[srca + m][t][i]]]
                           ELSE full.c[m]]]
         IN  Head3(folded, Min2(N2, full.no))
+
+\* periodization branch of afb1d (after "fix: periodization ... wrap around fully"):
+\* repeat the last sample for odd sizes, gather with xe = arange(-(L2-1), N+L2-1) % N,
+\* then a 'valid' stride-2 correlation
+ImplAPer(N, L, Stored(_)) ==
+        LET L2  == L \div 2
+            Ne  == N + (N % 2)
+            i0  == [p \in Rng(Ne) |-> IF p < N THEN p ELSE N - 1]
+            n1  == Ne + 2 * (L2 - 1)
+            xe  == [p \in Rng(n1) |-> PMod(p - (L2 - 1), Ne)]
+        IN  CorrGather(n1, GatherIdx(i0, xe, n1), L, 2, Stored, N)
+
+ImplAGeneric(mode, N, L, Stored(_)) ==
+    IF mode = "periodization" THEN
+        IF PerFix THEN ImplAPer(N, L, Stored) ELSE ImplAPerOld(N, L, Stored)
     ELSE
         LET pd == ImplAPads(N, L, mode)
         IN  CASE mode = "zero" ->
@@ -126,11 +144,11 @@ ConvT(M, L, pad, Stored(_)) ==
 
 \* synthesis filters are stored as given (prep_filt_sfb1d does not flip)
 ImplSLen(mode, M, L) == IF mode = "periodization" THEN 2 * M ELSE 2 * M - L + 2
-ImplSGeneric(mode, M, L, Stored(_)) ==
-    IF mode = "periodization" THEN
+\* periodization branch of sfb1d BEFORE the repair of F1: one fold of [N, N+L-2) onto
+\* [0, L-2), keep N, roll(1 - L/2)
+ImplSPerOld(M, L, Stored(_)) ==
         LET N    == 2 * M
             full == ConvT(M, L, 0, Stored)            \* length N + L - 2
-            \* y[:L-2] = y[:L-2] + y[N:N+L-2]
             dstn == Min2(L - 2, full.no)
             srca == PyStart(full.no, N)
             srcn == PyStop(full.no, N + L - 2) - srca
@@ -140,9 +158,23 @@ ImplSGeneric(mode, M, L, Stored(_)) ==
                                    full.c[q][t][k] + full.c[srca + q][t][k]]]
                           ELSE full.c[q]]]
             kept == Head3(folded, Min2(N, full.no))
-            \* y = roll(y, 1 - L//2)
             sh   == 1 - (L \div 2)
         IN  Rows3(kept, RollLen(kept.no, sh), RollIdx(kept.no, sh))
+
+\* after the repair: y = zeros(N).index_add_(xe, full) with xe[t] = (t - (L/2-1)) mod N
+ImplSPer(M, L, Stored(_)) ==
+        LET N    == 2 * M
+            full == ConvT(M, L, 0, Stored)
+            dst(t) == PMod(t - ((L \div 2) - 1), N)
+        IN  Mk3(N, L, M, LAMBDA q, t, k :
+                   LET f[u \in 0 .. full.no] ==
+                         IF u = 0 THEN 0
+                         ELSE f[u - 1] + (IF dst(u - 1) = q THEN full.c[u - 1][t][k] ELSE 0)
+                   IN  f[full.no])
+
+ImplSGeneric(mode, M, L, Stored(_)) ==
+    IF mode = "periodization" THEN
+        IF PerFix THEN ImplSPer(M, L, Stored) ELSE ImplSPerOld(M, L, Stored)
     ELSE ConvT(M, L, L - 2, Stored)
 ImplS(mode, M, L) == ImplSGeneric(mode, M, L, LAMBDA u : u)
 
